@@ -100,6 +100,8 @@ def _c18(ctx):
 def _t1(ctx, family, tags=None, floor=1, keep=None):
     from .rules import tab
     r, n = tab.rule_T1(ctx, family, tags, keep=keep)
+    if ctx.prog.raw.get('precision', 2) != 2:
+        floor = max(1, floor // 5)      # lower default series orders in the other configurations
     r.floor('active monomials (%s)' % family, n, floor)
     r.assumptions.append('necessary condition only: mutually consistent tables need not be the right series')
     return r
@@ -248,10 +250,36 @@ CHECKS = {
 }
 
 
+_extra = {}
+ALIAS = {'K4': 'E1', 'P1': 'E1'}
+
+
 def run(prop, tier):
+    from . import controls
     ctx = Ctx(tier=tier)
-    return CHECKS[prop](ctx)
+    results = CHECKS[prop](ctx)
+    rules = sorted({ALIAS.get(r.rule, r.rule) for r in results})
+    _extra[prop] = {'positive_controls': controls.run_controls(rules)}
+    if tier == 'thorough':
+        results += thorough_extra(prop, ctx)
+    return results
+
+
+def thorough_extra(prop, ctx):
+    """the same rules under the other floating-point configurations of the library (different real,
+    different default series orders, different template instantiations)."""
+    out = []
+    for prec in (1, 3):
+        c2 = Ctx(tier='thorough', precision=prec)
+        rs = CHECKS[prop](c2)
+        for r in rs:
+            r.rule = '%s@p%d' % (r.rule, prec)
+            r.title = '[GEOGRAPHICLIB_PRECISION=%d] %s' % (prec, r.title)
+            for f in r.findings:
+                f.rule = r.rule
+        out += rs
+    return out
 
 
 def extra_coverage(prop):
-    return {}
+    return _extra.get(prop, {})
